@@ -34,6 +34,12 @@ CHECKS = {
  "C18": dict(engine="statespace", technique="exhaustive enumeration of operation histories (stateright BFS) on real timers with a virtual clock vs. exactly-once reference",
    text="Every history up to depth 5 (thorough 6; merged-state BFS to depth 7/9) of start/observe_duration/stop_and_record/stop_and_discard/drop/drop-on-other-thread/observe_closure_duration over <=3 timers of a shared and of a local histogram, interleaved with forward and backward steps of a virtual clock, is replayed on the real code; after every step the histogram must have grown by exactly one observation of max(now-start,0) or by none.",
    note="clock is the verif time seam; coarse clock (nightly feature) not built", ref="6 C18"),
+ "C02": dict(engine="vsched", technique="stateless exhaustive exploration of thread interleavings of the real histogram under a controlled scheduler (sleep sets unbounded / preemption-bounded) + snapshot-is-a-cut oracle + vector-clock happens-before audit of the hand-off",
+   text="Observer/batcher/collector drivers (2-4 threads, 1-3 collections, direct / HistogramVec / Registry::gather collect paths, three start states) are run on every interleaving of their atomic, lock and call-boundary steps (Mode U unbounded with sleep sets where it completes, else all schedules with <=2 (thorough 3) preemptions); every snapshot must decode (distinct power-of-two observations) to one set S consistent in count/sum/buckets, bounded by real time and prefix-closed per thread. Every execution is additionally audited with vector clocks built from the orderings the code passes: each draining access to a data cell must be happens-before-ordered with every other thread's access to it through the sync cells alone.",
+   note="explored executions are SC interleavings; memory-model coverage is the hb audit of explored executions, not an enumeration of weak executions; Mode B drivers hold up to the stated preemption bound", ref="6 C02"),
+ "C03": dict(engine="vsched", technique="stateless exhaustive exploration of thread interleavings of the real histogram under a controlled scheduler + conservation/growth/batch-atomicity/termination oracles",
+   text="Drivers with >=3 collections, 1-2 collector threads, direct observers, local-batch flushers and get_sample_* readers are run on every interleaving (Mode U / preemption bound as C02): snapshots ordered in real time grow, a batch is in a snapshot entirely or not at all, the quiescent snapshot and get_sample_count/sum describe exactly all observations, no deadlock/livelock, and a collector that spins does so only while an observe/flush call is in flight.",
+   note="SC interleavings; <=4 threads; Mode B drivers hold up to the stated preemption bound", ref="6 C03"),
 }
 
 NOT_YET = "check not built yet in this round; planned per DESIGN.md section 6"
